@@ -653,8 +653,9 @@ def p_mp_createClass(p):
                     continue  # Try again to create the class
 
                 if errcode == CIM_ERR_INVALID_SUPERCLASS:
-                    if fixedSuper:
-                        # Compiling the superclass did not help
+                    if fixedSuper or not cc.superclass:
+                        # Compiling the superclass did not help, or the
+                        # class does not have one
                         raise
                     moffile = p.parser.mofcomp.find_mof(cc.superclass)
                     if not moffile:
